@@ -542,4 +542,90 @@ Section AllocStep.
         * intros k0 E. rewrite (rem_rn_other _ _ _ _ _ E). apply rem_gq. apply gq_exit_ctx.
         * intros k0 E. exact (rem_rn_self_le spec t k _ k0 E).
   Qed.
+
+  Theorem j_step c : is_unwind (c_mode c) = false -> J c -> J (step P c).
+  Proof.
+    intros Hu (spec & HC & HW). destruct c as [m fr s]. cbn [c_mode] in Hu.
+    assert (Q : (forall t p, m <> MRun t p) -> JW spec (step P (mkC m fr s))) by (intros Hm; apply j_quiet; assumption).
+    destruct m as [h| | | |t|t p| |o|e|o|].
+    - apply (J_intro spec); [apply c01_MValue; exact HC|apply Q; intros; discriminate].
+    - apply (J_intro spec); [apply c01_MWaitHead; exact HC|apply Q; intros; discriminate].
+    - apply (J_intro spec); [apply (c01_MAfterExec P HP); exact HC|apply Q; intros; discriminate].
+    - apply (J_intro spec); [apply c01_MExecLoop; exact HC|apply Q; intros; discriminate].
+    - apply (J_intro spec); [apply c01_MResume; exact HC|apply Q; intros; discriminate].
+    - exact (j_run spec t p fr s HC HW).
+    - apply (J_intro spec); [apply c01_MContRet; exact HC|apply Q; intros; discriminate].
+    - apply (J_intro spec); [apply c01_MDeliver; exact HC|apply Q; intros; discriminate].
+    - discriminate Hu.
+    - exists spec. split; [exact HC|exact HW].
+    - exists spec. split; [exact HC|exact HW].
+  Qed.
+
+  Theorem j_runs n : forall c, J c -> (forall k, (k < n)%nat -> is_unwind (c_mode (run P k c)) = false) -> J (run P n c).
+  Proof.
+    induction n as [|n IH]; intros c HJ Hn; [exact HJ|]. rewrite run_S.
+    destruct (is_final (c_mode c)) eqn:Hf; [exact HJ|]. apply IH.
+    - apply j_step; [exact (Hn O ltac:(lia))|exact HJ].
+    - intros k Hk. specialize (Hn (S k) ltac:(lia)). rewrite run_S, Hf in Hn. exact Hn.
+  Qed.
 End AllocStep.
+
+(* ------------------------------------------------------------------ the theorems *)
+Lemma J_start P p : tree p ->
+  J (fst (create [] (FTask p) (st0 P))) (eval p) (1 + nf p)
+    (start (fst (create [] (FTask p) (st0 P))) (snd (create [] (FTask p) (st0 P)))).
+Proof.
+  intros Ht.
+  pose proof (SInv_create (fun _ => None) None [] (FTask p) (st0 P) (SInv_empty P) (tf_task p Ht)) as HC.
+  cbn zeta in HC. destruct (create [] (FTask p) (st0 P)) as [h s1] eqn:Ec. cbn [fst snd] in *.
+  destruct HC as (_ & HS1 & Hnew & _).
+  assert (Hg : is_task h s1).
+  { unfold create, alloc in Ec. cbn in Ec. inversion Ec; subst. eexists _, _. apply get_put_same. }
+  exists (spec_add (fun _ => None) h (eval p)). split.
+  - apply CInv_intro; [unfold spec_add; rewrite fid_eqb_refl; reflexivity|reflexivity|exact HS1|exact Hg|reflexivity].
+  - pose proof (alloc_inv_start P p (spec_add (fun _ => None) h (eval p))) as H. rewrite Ec in H. exact H.
+Qed.
+
+(* THE ALLOCATION BOUND: as long as the run has not unwound, it has created at most 1 + nf p futures *)
+Theorem alloc_bound_tree P p n :
+  pointwise P -> tree p ->
+  let h := fst (create [] (FTask p) (st0 P)) in
+  let s1 := snd (create [] (FTask p) (st0 P)) in
+  (forall k, (k < n)%nat -> is_unwind (c_mode (run P k (start h s1))) = false) ->
+  (top_next (c_st (run P n (start h s1))) <= Z.of_nat (1 + nf p))%Z.
+Proof.
+  intros HP Ht. cbn zeta. intros Hn.
+  destruct (j_runs P HP _ (eval p) (1 + nf p) n _ (J_start P p Ht) Hn) as (spec & _ & HW).
+  unfold JW, W in HW. lia.
+Qed.
+
+(* UNCONDITIONAL (up to the guard) TERMINATION of tree programs *)
+Theorem terminates_tree P p :
+  pointwise P -> tree p ->
+  let h := fst (create [] (FTask p) (st0 P)) in
+  let s1 := snd (create [] (FTask p) (st0 P)) in
+  (forall n, no_unwind P n (start h s1)) ->
+  exists n, c_mode (run P n (start h s1)) = MDone (eval p).
+Proof.
+  intros HP Ht. cbn zeta. intros Hnu. apply (terminates_if_allocation_bounded_tree P p (1 + nf p) HP Ht Hnu).
+  intros n. apply (alloc_bound_tree P p n HP Ht). intros k Hk. apply (Hnu k k). lia.
+Qed.
+
+(* ... and with NO hypothesis about the run when MAX_TASK_STACK_SIZE is at least the number of futures of the
+   sequential evaluation *)
+Theorem small_never_unwinds P p :
+  pointwise P -> tree p -> (Z.of_nat (1 + nf p) <= p_maxstack P)%Z ->
+  forall n, no_unwind P n (start (fst (create [] (FTask p) (st0 P))) (snd (create [] (FTask p) (st0 P)))).
+Proof.
+  intros HP Ht Hsmall. induction n as [|n IH].
+  - apply (tree_guard_silent_while_few_futures P HP p Ht O). intros k Hk.
+    pose proof (alloc_bound_tree P p k HP Ht) as B. cbn zeta in B. etransitivity; [apply B|exact Hsmall]. intros j Hj. lia.
+  - apply (tree_guard_silent_while_few_futures P HP p Ht (S n)). intros k Hk.
+    pose proof (alloc_bound_tree P p k HP Ht) as B. cbn zeta in B. etransitivity; [apply B|exact Hsmall].
+    intros j Hj. apply (IH j). lia.
+Qed.
+
+Theorem terminates_tree_small P p :
+  pointwise P -> tree p -> (Z.of_nat (1 + nf p) <= p_maxstack P)%Z ->
+  exists n, c_mode (run P n (start (fst (create [] (FTask p) (st0 P))) (snd (create [] (FTask p) (st0 P))))) = MDone (eval p).
+Proof. intros HP Ht Hsmall. exact (terminates_tree P p HP Ht (small_never_unwinds P p HP Ht Hsmall)). Qed.
